@@ -128,6 +128,10 @@ func runC01(c *core.Case) {
 	} else if c.Rng.IntN(2) == 0 {
 		opts = append(opts, cluster.NodeOpts{Tune: tune})
 	}
+	for i := range opts {
+		// an eager lock-less reader sits behind every invalidation (see drv.PageCache)
+		opts[i].RefillCache = true
+	}
 	cl, err := cluster.New(c.Dir, opts)
 	if err != nil {
 		c.Inconclusive(err.Error())
